@@ -196,6 +196,13 @@ impl CodeCache {
       if index != ip && index < 0x4000 && index + length > 0x4000 {
         break;
       }
+      // Likewise an instruction that is cut by the end of ROM takes its operand
+      // bytes from video RAM, which changes without the cache knowing. It begins
+      // a block of its own, and that block is never translated (see
+      // Core::run_code_block).
+      if index != ip && index < 0x8000 && index + length > 0x8000 {
+        break;
+      }
       index += length;
       block_ended = next_op.is_block_end();
       let translated = self.exec_memory.get_memory_area_mut();
